@@ -4,63 +4,63 @@ From Verif Require Import Base C10_Model.
 Open Scope Z_scope.
 
 Definition schema_t1 : schema :=
-  [(mk_field "ID"%string "id"%string false None None None true ANone);
-   (mk_field "Name"%string "name"%string false None None None false ANone);
-   (mk_field "Age"%string "age"%string false None None None false ANone);
-   (mk_field "Note"%string "note"%string false None None None false ANone);
-   (mk_field "CreatedAt"%string "created_at"%string false None None None false ACreate);
-   (mk_field "UpdatedAt"%string "updated_at"%string false None None None false AUpdate)].
+  [(mk_field "ID"%string "id"%string false false None None None true ANone);
+   (mk_field "Name"%string "name"%string false false None None None false ANone);
+   (mk_field "Age"%string "age"%string false false None None None false ANone);
+   (mk_field "Note"%string "note"%string false false None None None false ANone);
+   (mk_field "CreatedAt"%string "created_at"%string false false None None None false ACreate);
+   (mk_field "UpdatedAt"%string "updated_at"%string false false None None None false AUpdate)].
 
 Definition schema_t2 : schema :=
-  [(mk_field "ID"%string "id"%string false None None None true ANone);
-   (mk_field "A"%string "a"%string false None None (Some WCreate) false ANone);
-   (mk_field "B"%string "b"%string false None None (Some WUpdate) false ANone);
-   (mk_field "C"%string "c"%string false None None (Some WFalse) false ANone);
-   (mk_field "D"%string "d"%string false None (Some true) None false ANone);
-   (mk_field "E"%string "e"%string false None (Some false) None false ANone);
-   (mk_field "F"%string "f"%string false None None None false ANone);
-   (mk_field "N"%string "n"%string false None None (Some WAll) false ANone);
-   (mk_field "UpdatedAt"%string "updated_at"%string false None None None false AUpdate)].
+  [(mk_field "ID"%string "id"%string false false None None None true ANone);
+   (mk_field "A"%string "a"%string false false None None (Some WCreate) false ANone);
+   (mk_field "B"%string "b"%string false false None None (Some WUpdate) false ANone);
+   (mk_field "C"%string "c"%string false false None None (Some WFalse) false ANone);
+   (mk_field "D"%string "d"%string false false None (Some true) None false ANone);
+   (mk_field "E"%string "e"%string false false None (Some false) None false ANone);
+   (mk_field "F"%string "f"%string false false None None None false ANone);
+   (mk_field "N"%string "n"%string false false None None (Some WAll) false ANone);
+   (mk_field "UpdatedAt"%string "updated_at"%string false false None None None false AUpdate)].
 
 Definition schema_t3 : schema :=
-  [(mk_field "ID"%string "id"%string false None None None true ANone);
-   (mk_field "G"%string "g"%string false (Some DDash) None None false ANone);
-   (mk_field "H"%string "h"%string false (Some DMigration) None None false ANone);
-   (mk_field "I"%string "i"%string false (Some DAll) None None false ANone);
-   (mk_field "J"%string "j"%string false None None None false ANone);
-   (mk_field "K"%string "k"%string false None (Some true) (Some WCreate) false ANone);
-   (mk_field "CreatedAt"%string "created_at"%string false None None None false ACreate);
-   (mk_field "UpdatedAt"%string "updated_at"%string false None None None false AUpdate)].
+  [(mk_field "ID"%string "id"%string false false None None None true ANone);
+   (mk_field "G"%string "g"%string false false (Some DDash) None None false ANone);
+   (mk_field "H"%string "h"%string false false (Some DMigration) None None false ANone);
+   (mk_field "I"%string "i"%string false false (Some DAll) None None false ANone);
+   (mk_field "J"%string "j"%string false false None None None false ANone);
+   (mk_field "K"%string "k"%string false false None (Some true) (Some WCreate) false ANone);
+   (mk_field "CreatedAt"%string "created_at"%string false false None None None false ACreate);
+   (mk_field "UpdatedAt"%string "updated_at"%string false false None None None false AUpdate)].
 
 Definition schema_t4 : schema :=
-  [(mk_field "ID"%string "id"%string false None None None true ANone);
-   (mk_field "Name"%string "name"%string false None None None false ANone);
-   (mk_field "CreatedAt"%string "created_at"%string false None None None false ACreate);
-   (mk_field "UpdatedAt"%string "updated_at"%string false None None None false AUpdate);
-   (mk_field "Touched"%string "touched"%string false None None None false AUpdate);
-   (mk_field "Made"%string "made"%string false None None None false ACreate)].
+  [(mk_field "ID"%string "id"%string false false None None None true ANone);
+   (mk_field "Name"%string "name"%string false false None None None false ANone);
+   (mk_field "CreatedAt"%string "created_at"%string false false None None None false ACreate);
+   (mk_field "UpdatedAt"%string "updated_at"%string false false None None None false AUpdate);
+   (mk_field "Touched"%string "touched"%string false false None None None false AUpdate);
+   (mk_field "Made"%string "made"%string false false None None None false ACreate)].
 
 Definition schema_t5 : schema :=
-  [(mk_field "ID"%string "id"%string false None None None true ANone);
-   (mk_field "Name"%string "name"%string false None None None false ANone);
-   (mk_field "Age"%string "age"%string false None None (Some WUpdate) false ANone);
-   (mk_field "CreatedAt"%string "created_at"%string false None None (Some WCreate) false ACreate);
-   (mk_field "UpdatedAt"%string "updated_at"%string false None None (Some WCreate) false AUpdate);
-   (mk_field "Seen"%string "seen"%string false None (Some true) None false AUpdate)].
+  [(mk_field "ID"%string "id"%string false false None None None true ANone);
+   (mk_field "Name"%string "name"%string false false None None None false ANone);
+   (mk_field "Age"%string "age"%string false false None None (Some WUpdate) false ANone);
+   (mk_field "CreatedAt"%string "created_at"%string false false None None (Some WCreate) false ACreate);
+   (mk_field "UpdatedAt"%string "updated_at"%string false false None None (Some WCreate) false AUpdate);
+   (mk_field "Seen"%string "seen"%string false false None (Some true) None false AUpdate)].
 
 Definition schema_t6 : schema :=
-  [(mk_field "ID"%string "id"%string false None None None true ANone);
-   (mk_field "FullName"%string "full_nm"%string true None None None false ANone);
-   (mk_field "Age"%string "years"%string true None None (Some WUpdate) false ANone);
-   (mk_field "Nick"%string "nick"%string true None None (Some WCreate) false ANone);
-   (mk_field "Zip"%string "zip"%string false None None (Some WCreateUpdate) false ANone);
-   (mk_field "UpdatedAt"%string "updated_at"%string false None None None false AUpdate)].
+  [(mk_field "ID"%string "id"%string false false None None None true ANone);
+   (mk_field "FullName"%string "full_nm"%string true false None None None false ANone);
+   (mk_field "Age"%string "years"%string true false None None (Some WUpdate) false ANone);
+   (mk_field "Nick"%string "nick"%string true false None None (Some WCreate) false ANone);
+   (mk_field "Zip"%string "zip"%string false false None None (Some WCreateUpdate) false ANone);
+   (mk_field "UpdatedAt"%string "updated_at"%string false false None None None false AUpdate)].
 
 Definition schema_t7 : schema :=
-  [(mk_field "ID"%string "id"%string false None None None true ANone);
-   (mk_field "Locale"%string "locale"%string false None None None true ANone);
-   (mk_field "Title"%string "title"%string false None None None false ANone);
-   (mk_field "Views"%string "views"%string false None None None false ANone);
-   (mk_field "UpdatedAt"%string "updated_at"%string false None None None false AUpdate)].
+  [(mk_field "ID"%string "id"%string false false None None None true ANone);
+   (mk_field "Locale"%string "locale"%string false false None None None true ANone);
+   (mk_field "Title"%string "title"%string false false None None None false ANone);
+   (mk_field "Views"%string "views"%string false false None None None false ANone);
+   (mk_field "UpdatedAt"%string "updated_at"%string false false None None None false AUpdate)].
 
 Definition harness_schemas : list schema := [schema_t1; schema_t2; schema_t3; schema_t4; schema_t5; schema_t6; schema_t7].
